@@ -1,0 +1,23 @@
+//go:build verif
+// +build verif
+
+package backend
+
+// Verification trace hooks (build tag verif). Off unless a tracer is installed.
+
+// VerifTracer receives one event per linearization point of a backend's health state.
+// Events emitted by methods of BfeBackend are delivered while the backend lock is held,
+// after the state change; avail/failNum/succNum are the values after the change.
+var VerifTracer func(ev string, back *BfeBackend, avail bool, failNum, succNum int, arg int)
+
+func verifTraceLocked(ev string, back *BfeBackend, arg int) {
+	if VerifTracer != nil {
+		VerifTracer(ev, back, back.avail, back.failNum, back.succNum, arg)
+	}
+}
+
+func verifTrace(ev string, back *BfeBackend, arg int) {
+	if VerifTracer != nil {
+		VerifTracer(ev, back, false, -1, -1, arg)
+	}
+}
